@@ -878,7 +878,9 @@ def cli_cases(r, n, pool_cases):
 
 
 def _plain_name(k):
-    return bool(re.match(r"^[A-Za-z0-9_./-]+$", k)) and ".." not in k and not k.startswith("/") and not k.endswith("/")
+    """File names that can be written below a scratch directory as they are."""
+    return bool(re.match(r"^[A-Za-z0-9_./-]+$", k)) and not k.startswith("/") and \
+        all(part not in ("", ".", "..") for part in k.split("/"))
 
 
 def run_cli(job):
@@ -887,9 +889,12 @@ def run_cli(job):
     os.makedirs(d, exist_ok=True)
     for k, v in c["raw"].items():
         p = os.path.join(d, "in", k)
-        os.makedirs(os.path.dirname(p), exist_ok=True)
-        with open(p, "wb") as f:
-            f.write(v)
+        try:
+            os.makedirs(os.path.dirname(p), exist_ok=True)
+            with open(p, "wb") as f:
+                f.write(v)
+        except OSError:
+            return idx, [], False       # file set not representable on disk (a/b next to a): skip
     os.makedirs(os.path.join(d, "in"), exist_ok=True)
     env = dict(os.environ, PYTHONPATH=common.REPO)
     py = sys.executable
